@@ -1,7 +1,7 @@
 SPECIFICATION Spec
 CONSTANTS
   Deviations <- AllDevs
-  Families <- F_create
+  Families <- G_e
   Wide = FALSE
 INVARIANT AtenWellFormed
 INVARIANT DesignOK
